@@ -8,6 +8,20 @@ Open Scope N_scope.
 Fixpoint nseq (start : N) (n : nat) : list N :=
   match n with O => [] | S n => start :: nseq (start + 1) n end.
 
+(* the entries of an index window, cut out of the data block in one pass: entry j of the window is
+   the slice [(offset + j) * size, + size) when offset + j is below the store's count, else "no such
+   entry" (same as [index_get], see [window_entries_spec]) *)
+Fixpoint window_entries (n esize : nat) (valid : N) (d : list N) : list (option (list N)) :=
+  match n with
+  | O => []
+  | S n => (if valid =? 0 then None else Some (firstn esize d)) :: window_entries n esize (N.pred valid) (skipn esize d)
+  end.
+(* the byte position of the window is clamped to the length of the data in N before it becomes a nat:
+   a damaged offset may be astronomically large, and skipping past the end gives [] either way *)
+Definition index_entries (ih : index_header) (ly : layout) (data : list N) (n : nat) : list (option (list N)) :=
+  window_entries n (l_entry_size ly) (l_count ly - ix_offset ih)
+                 (skipn (N.to_nat (N.min (ix_offset ih * N.of_nat (l_entry_size ly)) (lenN data))) data).
+
 Record index_dump := {
   id_header : index_header;
   id_store : res (layout * list (option (option N * list (list N * res value)))) }.  (* None = no such entry *)
@@ -30,14 +44,48 @@ Definition dp_dump_at (f : list N) (base : N) : res (list (res index_dump)) :=
                     match run_n n f (dp_entry_store_p d (ix_store ih)) with
                     | Err e => Err e
                     | Ok (ly, data) =>
-                        (* the dump shows the first 20000 entries of an index (a damaged count may be huge) *)
-                        Ok (ly, map (fun j =>
-                              match index_get ih ly data j with
+                        (* the dump shows the first 200000 entries of an index (a damaged count may be huge) *)
+                        Ok (ly, map (fun oe =>
+                              match oe with
                               | None => None
                               | Some e => Some (read_entry store ly e)
-                              end) (nseq 0 (N.to_nat (N.min (ix_count ih) 20000))))
+                              end) (index_entries ih ly data (N.to_nat (N.min (ix_count ih) 200000))))
                     end |}
         end) (nseq 0 (N.to_nat (dh_index_count (dp_dh d)))))
   end.
 Definition dp_dump (f : list N) := dp_dump_at f 0.
 Close Scope N_scope.
+
+(* the one-pass window is the per-entry definition *)
+From Coq Require Import Lia.
+Lemma window_entries_nth esize : forall n valid d j, (j < n)%nat ->
+  nth_error (window_entries n esize valid d) j =
+  Some (if (valid <=? N.of_nat j)%N then None else Some (sub (j * esize) esize d)).
+Proof.
+  induction n as [|n IH]; intros valid d j H; [lia|].
+  destruct j as [|j]; cbn [window_entries nth_error].
+  - destruct (N.eqb_spec valid 0) as [->|Hv]; cbn [N.of_nat].
+    + reflexivity.
+    + replace (valid <=? 0)%N with false by (symmetry; apply N.leb_gt; lia). unfold sub. reflexivity.
+  - rewrite IH by lia. f_equal.
+    destruct (N.leb_spec (N.pred valid) (N.of_nat j)); destruct (N.leb_spec valid (N.of_nat (S j))); try lia; try reflexivity.
+    f_equal. unfold sub. rewrite skipn_skipn. f_equal; f_equal; lia.
+Qed.
+Lemma skipn_clamped {A} (l : list A) (a : N) :
+  skipn (N.to_nat (N.min a (N.of_nat (length l)))) l = skipn (N.to_nat a) l.
+Proof.
+  destruct (N.le_gt_cases a (N.of_nat (length l))) as [H|H].
+  - now rewrite N.min_l by exact H.
+  - rewrite N.min_r by lia. rewrite Nat2N.id, skipn_all. symmetry. apply skipn_all2. lia.
+Qed.
+Theorem window_entries_spec ih ly data n j : (j < n)%nat -> (N.of_nat n <= ix_count ih)%N ->
+  nth_error (index_entries ih ly data n) j = Some (index_get ih ly data (N.of_nat j)).
+Proof.
+  intros Hj Hn. unfold index_entries. unfold lenN. rewrite skipn_clamped.
+  replace (N.to_nat (ix_offset ih * N.of_nat (l_entry_size ly))) with (N.to_nat (ix_offset ih) * l_entry_size ly)%nat by lia.
+  rewrite window_entries_nth by exact Hj. f_equal.
+  unfold index_get. replace (ix_count ih <=? N.of_nat j)%N with false by (symmetry; apply N.leb_gt; lia).
+  unfold entry_bytes.
+  destruct (N.leb_spec (l_count ly - ix_offset ih) (N.of_nat j)); destruct (N.leb_spec (l_count ly) (ix_offset ih + N.of_nat j)); try lia; try reflexivity.
+  f_equal. unfold sub. rewrite skipn_skipn. f_equal; f_equal; lia.
+Qed.
